@@ -141,24 +141,46 @@ example : WT table exA ∧ WT table exB ∧ WT table (zero table) := by decide
 
 /-! ## Reading paths = folding the merge -/
 
-/-- `ReadConfigPaths` starts from `new(Config)`, every update of the accumulator is
-`result = MergeConfig(result, config)` with `config` from `DecodeConfig`, directory
-entries are sorted by name and filtered on the `.json` suffix, and `result` is returned. -/
+/-- The body of `ReadConfigPaths`, statement by statement, is: `result := new(Config)`; for each
+path: open, stat (each failure returns no configuration); a plain file is decoded and merged
+`MergeConfig(result, config)`; a directory is listed, SORTED, and each entry that is not a
+directory and ends in `.json` is opened, decoded and merged `MergeConfig(result, config)` into
+the SAME running result; finally `result` is returned.  Its variation points are the canonical
+ones (`canonicalRead`), and `dirEnts.Less` orders names ascending. -/
 theorem C31_read_shape :
-    Gen.MergeConfig.readInit = "new(Config)" ∧
-    Gen.MergeConfig.readUpdates = ["MergeConfig(result, config)", "MergeConfig(result, config)"] ∧
-    Gen.MergeConfig.readDecodes = ["DecodeConfig(f)", "DecodeConfig(f)"] ∧
-    Gen.MergeConfig.readSuffix = ["strings.HasSuffix(fi.Name(), \".json\")"] ∧
-    Gen.MergeConfig.readSort = ["sort.Sort(dirEnts(contents))"] ∧
-    Gen.MergeConfig.readLess = "return d[i].Name() < d[j].Name()" ∧
-    Gen.MergeConfig.readReturns = ["result"] := by decide
+    Gen.MergeConfig.readTokens =
+      ["init", "paths[", "open", "fail", "stat", "fail",
+         "file[", "decode", "close", "fail", "merge:result,config", "continue", "]",
+         "readdir", "close", "fail", "sort",
+         "each[", "skipdir", "suffix:.json", "join", "open", "fail", "decode", "close", "fail", "merge:result,config", "]",
+       "]", "return"] ∧
+    Gen.MergeConfig.readShape = canonicalRead := by decide
 
-/-- Reading a list of paths (files, directories, unreadable paths; entries that do not
-decode) equals merging the selected sources one by one, left to right, starting from the
-zero configuration — or fails iff one of them fails. -/
+/-- **the translated reader is the model** -/
+theorem C31_reader_is_model (ps : List PathArg) :
+    readPathsS Gen.MergeConfig.readShape table ps = readPaths table ps := by
+  rw [C31_read_shape.2]; exact readPathsS_canonical table ps
+
+/-- **Reading files in order equals merging them one by one.**  Reading a list of paths (files,
+directories, unreadable paths; entries that do not decode) equals merging the selected sources
+— each file path as given, a directory's non-directory `*.json` entries in lexical order — one
+by one, left to right, starting from the zero configuration; it fails iff one of them fails. -/
 theorem C31_fold (ps : List PathArg) :
-    readPaths table ps = (allOk (sources ps)).map (fun cs => cs.foldl (merge table) (zero table)) :=
-  readLoop_eq table ps (zero table)
+    readPathsS Gen.MergeConfig.readShape table ps =
+      (allOk (sources ps)).map (fun cs => cs.foldl (merge table) (zero table)) := by
+  rw [C31_reader_is_model]; exact readLoop_eq table ps (zero table)
+
+def exComp : Config := (zero table).map fun p => if p.1 == "EnableCompression" then (p.1, .bool true) else p
+
+/-- Regression witness (seeded mutation C31-a): merging a directory's files into an own empty
+configuration first and that into the result is NOT the same reader — a directory that
+contributes no `.json` file then acts as an extra empty source and resets the compression
+switch (which always comes from the later source). -/
+theorem C31_separate_dir_counterexample :
+    get ((readPathsS { canonicalRead with dirMode := .separate } table [.file (some exComp), .dir []]).getD [])
+        "EnableCompression" = .bool false ∧
+    get ((readPathsS canonicalRead table [.file (some exComp), .dir []]).getD []) "EnableCompression" = .bool true := by
+  decide
 
 /-- a concrete reading: a directory listed out of order with a non-`.json` file and a
 sub-directory, and a failing read -/
@@ -166,6 +188,73 @@ example :
     readPaths table [.dir [⟨"b.json", false, some exB⟩, ⟨"a.json", false, some exA⟩, ⟨"c.txt", false, none⟩, ⟨"d.json", true, none⟩]]
       = some (merge table (merge table (zero table) exA) exB) ∧
     readPaths table [.file (some exA), .dir [⟨"x.json", false, none⟩]] = none := by decide
+
+/-! ## DecodeConfig's post-processing (what a source file contributes) -/
+
+/-- `DecodeConfig` is: JSON-decode, `mapstructure`-decode into a fresh `Config` rejecting unknown
+keys (`ErrorUnused: true`), then one block per duration setting, in this order, each of the shape
+`if result.XRaw != "" { dur, err := time.ParseDuration(result.XRaw); if err != nil { return nil, err }; result.X = dur }`,
+then `return &result, nil`. -/
+theorem C31_decode_shape :
+    Gen.MergeConfig.decodeTokens =
+      ["decl", "json-decoder", "json-decode-or-fail", "decl", "decl",
+       "mapstructure{Metadata: &md, Result: &result, ErrorUnused: true}", "fail", "mapstructure-decode-or-fail",
+       "duration", "duration", "duration", "duration", "duration", "return"] ∧
+    Gen.MergeConfig.durationPairs =
+      [("ReconnectIntervalRaw", "ReconnectInterval"), ("ReconnectTimeoutRaw", "ReconnectTimeout"),
+       ("TombstoneTimeoutRaw", "TombstoneTimeout"), ("RetryIntervalRaw", "RetryInterval"),
+       ("BroadcastTimeoutRaw", "BroadcastTimeout")] := by decide
+
+/-- every `*Raw` string of `Config` has its block, raw strings and durations do not overlap, no
+duration is written twice, and the fields have the expected types -/
+theorem C31_decode_pairs_ok :
+    (∀ pr ∈ Gen.MergeConfig.durationPairs, ∀ pr' ∈ Gen.MergeConfig.durationPairs, pr.1 ≠ pr'.2) ∧
+    (Gen.MergeConfig.durationPairs.map (·.2)).Nodup ∧
+    (∀ pr ∈ Gen.MergeConfig.durationPairs,
+      table.any (fun fs => fs.name == pr.1 && fs.kind == .str) = true ∧
+      table.any (fun fs => fs.name == pr.2 && fs.kind == .dur) = true) ∧
+    (∀ fs ∈ table, endsWithRaw fs.name = true → (Gen.MergeConfig.durationPairs.map (·.1)).contains fs.name = true) := by
+  decide
+
+/-- **What a file contributes after `DecodeConfig`'s post-processing**, for every decoded field
+assignment `c` (the result of the JSON / mapstructure step) and every behaviour `parseDur` of
+`time.ParseDuration`: decoding fails exactly when some non-empty `XRaw` does not parse;
+otherwise every duration `X` whose `XRaw` is non-empty is the parsed value and EVERY other
+field — also a duration whose raw string is empty — is what the file's JSON gave. -/
+theorem C31_decode (parseDur : String → Option Int) (c : Config) (hc : WT table c) :
+    match decodePost parseDur Gen.MergeConfig.durationPairs c with
+    | none => ∃ pr ∈ Gen.MergeConfig.durationPairs, ∃ s, get c pr.1 = .str s ∧ s ≠ "" ∧ parseDur s = none
+    | some c' => (∀ f, f ∉ Gen.MergeConfig.durationPairs.map (·.2) → get c' f = get c f) ∧
+        ∀ pr ∈ Gen.MergeConfig.durationPairs, ∃ s, get c pr.1 = .str s ∧
+          (s = "" → get c' pr.2 = get c pr.2) ∧ (s ≠ "" → ∃ n, parseDur s = some n ∧ get c' pr.2 = .int n) := by
+  obtain ⟨h1, h2, h3, _⟩ := C31_decode_pairs_ok
+  apply decodePost_spec parseDur _ c h1 h2
+  · intro pr hpr
+    obtain ⟨fs, hfs, hk⟩ := List.any_eq_true.mp (h3 pr hpr).2
+    simp only [Bool.and_eq_true, beq_iff_eq] at hk
+    have := hc fs hfs
+    rw [hk.2, hk.1] at this
+    obtain ⟨i, hi⟩ := hasKind_dur this
+    cases ha : alookup c pr.2 with
+    | some x => rfl
+    | none => simp [SerfModel.Config.get, ha] at hi
+  · intro pr hpr
+    obtain ⟨fs, hfs, hk⟩ := List.any_eq_true.mp (h3 pr hpr).1
+    simp only [Bool.and_eq_true, beq_iff_eq] at hk
+    have := hc fs hfs
+    rw [hk.2, hk.1] at this
+    exact hasKind_str this
+
+def exRaw : Config := (zero table).map fun p =>
+  if p.1 == "RetryIntervalRaw" then (p.1, .str "5s") else if p.1 == "BroadcastTimeoutRaw" then (p.1, .str "soon") else p
+
+/-- non-vacuity: a well-typed decoded file; with a parser that knows "5s" only, decoding fails on
+"soon"; with one that also reads "soon", `RetryInterval` becomes 5 s and `BroadcastTimeout` 1 -/
+example : WT table exRaw ∧
+    decodePost (fun s => if s = "5s" then some 5000000000 else none) Gen.MergeConfig.durationPairs exRaw = none ∧
+    ((decodePost (fun s => if s = "5s" then some 5000000000 else some 1) Gen.MergeConfig.durationPairs exRaw).map
+      fun c => (get c "RetryInterval", get c "BroadcastTimeout", get c "ReconnectInterval"))
+      = some (.int 5000000000, .int 1, .int 0) := by decide
 
 /-! ## No side effects (heap view) -/
 
@@ -191,14 +280,16 @@ theorem C31_heap_value_agree (h : Heap) (a b : RConfig)
 /-- the all-zero reference-level configuration (nil maps and slices) -/
 def rzero : RConfig := table.map fun fs =>
   (fs.name, match fs.kind with
-    | .tags | .list => .ref none
+    | .tags => .ref none
+    | .list => .slice none
     | k => .scalar (zeroVal k))
 
 /-- non-vacuity: well-formed inputs exist over any heap -/
 example (h : Heap) : ∀ fs ∈ table, RefOK h fs.kind (rget rzero fs.name) ∧ RefOK h fs.kind (rget rzero fs.name) := by
   intro fs hfs
   have : rget rzero fs.name = match fs.kind with
-      | .tags | .list => .ref none
+      | .tags => .ref none
+      | .list => .slice none
       | k => .scalar (zeroVal k) := by
     unfold rget rzero
     rw [alookup_map_rspec _ table C31_table_names_nodup fs hfs]; rfl
@@ -223,6 +314,78 @@ theorem C31_results_stable (h : Heap) (a b c d : RConfig)
     (mergeH_result_refok table C31_table_names_nodup h a b
       (fun fs hfs => ⟨C31_table_compat fs hfs, C31_table_no_inplace fs hfs, (hin fs hfs).1, (hin fs hfs).2⟩))
 
+/-- well-formed over `h`: every field a scalar / nil / a valid map reference / a valid slice header -/
+def WF (h : Heap) (c : RConfig) : Prop := ∀ fs ∈ table, RefOK h fs.kind (rget c fs.name)
+
+theorem WF_keeps {h h' : Heap} (hk : Keeps h h') {c : RConfig} (hc : WF h c) : WF h' c :=
+  fun fs hfs => RefOK_keeps hk _ _ (hc fs hfs)
+
+theorem WF_result (h : Heap) (a b : RConfig) (ha : WF h a) (hb : WF h b) : WF (mergeH table h a b).1 (mergeH table h a b).2 :=
+  mergeH_result_refok table C31_table_names_nodup h a b
+    (fun fs hfs => ⟨C31_table_compat fs hfs, C31_table_no_inplace fs hfs, ha fs hfs, hb fs hfs⟩)
+
+theorem keeps_mergeH (h : Heap) (a b : RConfig) : Keeps h (mergeH table h a b).1 :=
+  mergeHLoop_keeps table C31_table_no_inplace h a b []
+
+/-- **Associativity on the heap**, for inputs whose slices may have any spare capacity and may
+share storage: both association orders, executed on the heap (the inner result living in the
+heap the inner call returned), denote field-wise equal configurations. -/
+theorem C31_assoc_heap (h : Heap) (a b c : RConfig) (ha : WF h a) (hb : WF h b) (hc : WF h c)
+    (hwa : WT table (deref table h a)) (hwb : WT table (deref table h b)) (hwc : WT table (deref table h c)) :
+    let m1 := mergeH table h a b
+    let l := mergeH table m1.1 m1.2 c
+    let m2 := mergeH table h b c
+    let r := mergeH table m2.1 a m2.2
+    ∀ fs ∈ table, valEq (get (deref table l.1 l.2) fs.name) (get (deref table r.1 r.2) fs.name) := by
+  intro m1 l m2 r fs hfs
+  have k1 : Keeps h m1.1 := keeps_mergeH h a b
+  have k2 : Keeps h m2.1 := keeps_mergeH h b c
+  have e1 : deref table l.1 l.2 = merge table (merge table (deref table h a) (deref table h b)) (deref table h c) := by
+    show deref table (mergeH table m1.1 m1.2 c).1 (mergeH table m1.1 m1.2 c).2 = _
+    rw [C31_heap_value_agree m1.1 m1.2 c (fun fs hfs => ⟨WF_result h a b ha hb fs hfs, WF_keeps k1 hc fs hfs⟩),
+      C31_heap_value_agree h a b (fun fs hfs => ⟨ha fs hfs, hb fs hfs⟩), deref_keeps table k1 c hc]
+  have e2 : deref table r.1 r.2 = merge table (deref table h a) (merge table (deref table h b) (deref table h c)) := by
+    show deref table (mergeH table m2.1 a m2.2).1 (mergeH table m2.1 a m2.2).2 = _
+    rw [C31_heap_value_agree m2.1 a m2.2 (fun fs hfs => ⟨WF_keeps k2 ha fs hfs, WF_result h b c hb hc fs hfs⟩),
+      C31_heap_value_agree h b c (fun fs hfs => ⟨hb fs hfs, hc fs hfs⟩), deref_keeps table k2 a ha]
+  rw [e1, e2]
+  exact C31_assoc _ _ _ hwa hwb hwc fs hfs
+
+/-- **The fold on the heap**: a chain of merges executed on the heap — each step's accumulator
+is the previous step's result, in the heap that step returned; the sources may have spare
+capacity and share storage — denotes the value-level left fold of `merge` over what the sources
+denote.  (With `C31_fold` and `C31_decode`: what `ReadConfigPaths` returns.) -/
+theorem C31_fold_heap (cs : List RConfig) : ∀ (h : Heap) (acc : RConfig), WF h acc → (∀ c ∈ cs, WF h c) →
+    deref table (foldH table h acc cs).1 (foldH table h acc cs).2 =
+      (cs.map (deref table h)).foldl (merge table) (deref table h acc) := by
+  induction cs with
+  | nil => intro h acc _ _; rfl
+  | cons c cs ih =>
+    intro h acc hacc hcs
+    have hc : WF h c := hcs c (by simp)
+    have k : Keeps h (mergeH table h acc c).1 := keeps_mergeH h acc c
+    simp only [foldH, List.map_cons, List.foldl_cons]
+    rw [ih _ _ (WF_result h acc c hacc hc) (fun x hx => WF_keeps k (hcs x (by simp [hx]))),
+      C31_heap_value_agree h acc c (fun fs hfs => ⟨hacc fs hfs, hc fs hfs⟩)]
+    congr 1
+    apply List.map_congr_left
+    intro x hx
+    exact deref_keeps table k x (hcs x (by simp [hx]))
+
+/-- non-vacuity: the zero configuration is well-formed over any heap and denotes a well-typed value -/
+example (h : Heap) : WF h rzero := by
+  intro fs hfs
+  have : rget rzero fs.name = match fs.kind with
+      | .tags => .ref none
+      | .list => .slice none
+      | k => .scalar (zeroVal k) := by
+    unfold rget rzero
+    rw [alookup_map_rspec _ table C31_table_names_nodup fs hfs]; rfl
+  rw [this]
+  cases fs.kind <;> simp [RefOK]
+
+example : WT table (deref table [] rzero) := by decide
+
 /-- Regression witness: with the pre-repair statement shape (`tagsInPlace`) the call writes
 `b`'s tags into `a`'s map. -/
 theorem C31_pure_inplace_counterexample :
@@ -230,16 +393,26 @@ theorem C31_pure_inplace_counterexample :
         [("Tags", .ref (some 0))] [("Tags", .ref (some 1))]).1[0]? = some (.tags [("a", "1"), ("b", "2")]) := by
   decide
 
-/-- Witness for `result.X = append(a.X, b.X...)` (`appendInPlace`, seeded mutation C31-b): the
-same base merged twice — the second call rewrites the base's list object, and the first result,
-which shares it, now ends in the second call's entries. -/
+/-- Witness for `result.X = append(a.X, b.X...)` (`appendInPlace`, seeded mutation C31-b), with
+Go's exact `append`: the base's list has length 1 and capacity 3.  `merge(base,b)` writes `b`'s
+entry into the base's backing array (input storage written) and shares it; `merge(base,c)` then
+overwrites that cell, so the FIRST result now ends in `c`'s entry.  With capacity = length the
+same calls are harmless (append reallocates) — which is why linear chains and literal slices
+never show the defect. -/
 theorem C31_append_inplace_counterexample :
     let t : List FieldSpec := [⟨"StartJoin", .list, .appendInPlace⟩]
-    let h : Heap := [.strs ["s"], .strs ["b"], .strs ["c"]]
-    let m1 := mergeH t h [("StartJoin", .ref (some 0))] [("StartJoin", .ref (some 1))]
-    let m2 := mergeH t m1.1 [("StartJoin", .ref (some 0))] [("StartJoin", .ref (some 2))]
+    let base : RConfig := [("StartJoin", .slice (some (0, 1)))]
+    let h : Heap := [.strs ["s", "", ""], .strs ["b"], .strs ["c"]]
+    let m1 := mergeH t h base [("StartJoin", .slice (some (1, 1)))]
+    let m2 := mergeH t m1.1 base [("StartJoin", .slice (some (2, 1)))]
     deref t m1.1 m1.2 = [("StartJoin", .list ["s", "b"])] ∧
-    deref t m2.1 m1.2 ≠ deref t m1.1 m1.2 ∧ m1.1[0]? ≠ h[0]? := by
+    deref t m2.1 m1.2 = [("StartJoin", .list ["s", "c"])] ∧
+    m1.1[0]? = some (.strs ["s", "b", ""]) ∧
+    -- no spare capacity: both results stay intact
+    (let h' : Heap := [.strs ["s"], .strs ["b"], .strs ["c"]]
+     let n1 := mergeH t h' base [("StartJoin", .slice (some (1, 1)))]
+     let n2 := mergeH t n1.1 base [("StartJoin", .slice (some (2, 1)))]
+     deref t n2.1 n1.2 = [("StartJoin", .list ["s", "b"])] ∧ n2.1[0]? = h'[0]?) := by
   decide
 
 end SerfProofs.C31
